@@ -57,11 +57,12 @@ PARTIAL = ("Proved for all histories of the daemon model without response datagr
            "validated on every generated history by running the monitor on the model's own output as well. Exact times are "
            "theorems about schedules that are never late; the granted wake-up time is an input. Findings (known/C07.json): "
            "fewer than three probes when the daemon is woken late; a record that joins a probe in flight is proposed fewer "
-           "than three times; and three around interfaces that come back: no timer for a probe created by a pending second "
-           "announcement, a single announcement from add_interface, fixed-address services answered for without new probes")
+           "than three times; when an interface comes back, fixed-address services are answered for there without new "
+           "probes (the two other findings of round 2 around returning interfaces are repaired: 2ff6a49, 4b0055d; that "
+           "add_interface raises no Announce monitor event is outside the property, which speaks of announcements on "
+           "the wire)")
 
 KNOWN = {42: "C07-late-wakeup-fewer-probes", 44: "C07-record-joins-inflight-probe",
-         45: "C07-probe-created-in-resend-no-timer", 47: "C07-interface-added-single-announcement",
          48: "C07-static-service-answers-unprobed-after-interface-return"}
 
 
